@@ -32,8 +32,12 @@ pub fn opt_str_to_owned(o: Option<&str>) -> (r: Option<String>)
 #[verifier::external_type_specification]
 #[verifier::external_body]
 pub struct ExParseIntError(core::num::ParseIntError);
+// what <u32 as FromStr>::from_str makes of a text (decimal digits, optional leading '+', no overflow): uninterpreted - the
+// contracts only say that the stored code IS this value and that the Error appears exactly when there is none
+pub uninterp spec fn spec_parse_u32(s: Seq<char>) -> Option<u32>;
 #[verifier::external_body]
 pub fn str_parse_u32(s: &str) -> (r: Result<u32, core::num::ParseIntError>)
+    ensures (r is Ok <==> spec_parse_u32(s@) is Some), r is Ok ==> r->Ok_0 == spec_parse_u32(s@)->0
 { s.parse() }
 #[verifier::external_body]
 pub fn fmt_transact_code_error(e: core::num::ParseIntError) -> (r: String)
@@ -41,7 +45,9 @@ pub fn fmt_transact_code_error(e: core::num::ParseIntError) -> (r: String)
 // `v.map(|(ip1, i)| (ip1, i.parse()))` of the Method action: position kept, text parsed as u32
 #[verifier::external_body]
 pub fn opt_parse_transact_code(v: Option<(usize, &str)>) -> (r: Option<(usize, Result<u32, core::num::ParseIntError>)>)
-    ensures (r is Some <==> v is Some), v is Some ==> (r->0).0 == (v->0).0
+    ensures (r is Some <==> v is Some), v is Some ==> (r->0).0 == (v->0).0,
+        v is Some ==> ((r->0).1 is Ok <==> spec_parse_u32((v->0).1@) is Some),
+        v is Some && (r->0).1 is Ok ==> (r->0).1->Ok_0 == spec_parse_u32((v->0).1@)->0
 { v.map(|(ip1, i)| (ip1, i.parse())) }
 // `v.unwrap_or_default().into_iter().collect()` of the annotation action: the (name, value) pairs as a map, a later pair
 // with the same name replacing an earlier one (HashMap's FromIterator inserts in order)
